@@ -79,8 +79,25 @@ def _cancel_loop_hook(ex: paths.Explorer, n, st):
                     exc_val = ex.pure_value(other, st)
                     kind = 'except'
     itv = ex.pure_value(n.iter, st)
+    # does the loop raise when the cancellation *succeeded*?  (`ok = cancel(t)` / `if not ok: raise` is the idiom; the negation is a crash on success)
+    raises_on = None
+    res_names = set()
+    for x in ast.walk(n):
+        if isinstance(x, ast.Assign) and x.value is call and len(x.targets) == 1 and isinstance(x.targets[0], ast.Name):
+            res_names.add(x.targets[0].id)
+    for x in ast.walk(n):
+        if isinstance(x, ast.If) and x.body and any(isinstance(y, ast.Raise) for y in x.body):
+            t = x.test
+            neg = isinstance(t, ast.UnaryOp) and isinstance(t.op, ast.Not)
+            core = t.operand if neg else t
+            if isinstance(core, ast.BoolOp) and isinstance(core.op, ast.And):
+                core = core.values[-1]
+                neg2 = isinstance(core, ast.UnaryOp) and isinstance(core.op, ast.Not)
+                core, neg = (core.operand, neg2) if neg2 else (core, False)
+            if core is call or (isinstance(core, ast.Name) and core.id in res_names):
+                raises_on = 'failure' if neg else 'success'
     ex.emit(st, 'cancel_loop', n, iter=ast.unparse(n.iter), iter_val=itv, method=call.func.attr, guard=kind,
-            except_val=exc_val, recv=ast.unparse(call.func.value), var=var, node=n)
+            except_val=exc_val, recv=ast.unparse(call.func.value), var=var, node=n, raises_on=raises_on)
     for x in ast.walk(n):
         if isinstance(x, ast.Name) and isinstance(x.ctx, ast.Store):
             st.env[x.id] = paths.fresh('loopvar-' + x.id)
